@@ -10,7 +10,7 @@ RULE = ('seeded random instances: small (<= 4 agents per side) and wide (up to 1
 
 
 def cases(rng, tier):
-    n = 150 if tier == 'quick' else 4000
+    n = 400 if tier == 'quick' else 4000
     for t in range(n):
         wide = t % 3 == 0
         na = rng.choice([2, 3])
